@@ -206,6 +206,8 @@ def run_shard(pid: str, tier: str, seed: int, shard: int, nshards: int, out: str
 
 
 # ---------------------------------------------------------------------------------------------
+SHARD_TIME_ZONES = ("UTC", "EST5EDT,M3.2.0,M11.1.0", "UTC", "NZST-12NZDT,M9.5.0,M4.1.0/3")
+
 # parent: shard fan-out, merge, findings, evidence, verdict
 # ---------------------------------------------------------------------------------------------
 def load_findings() -> list[dict]:
@@ -265,6 +267,10 @@ def main_check(pid: str, tier: str, seed: int, replay: str | None = None) -> int
             env["PYTHONDONTWRITEBYTECODE"] = "1"
             env["OMP_NUM_THREADS"] = env["OPENBLAS_NUM_THREADS"] = env["MKL_NUM_THREADS"] = "1"
             env["PYTHONPATH"] = str(VERIF) + os.pathsep + env.get("PYTHONPATH", "")
+            # the process time zone is environment, not input: every second shard runs in a daylight-saving zone (the library
+            # works in naive UTC datetimes and must not care); an explicit TZ from the caller wins
+            if "TZ" not in os.environ:
+                env["TZ"] = SHARD_TIME_ZONES[s % len(SHARD_TIME_ZONES)]
             procs.append((s, out, subprocess.Popen(cmd, cwd=str(VERIF), env=env, stdout=subprocess.PIPE, stderr=subprocess.STDOUT)))
         parts = []
         watchdog = budget * 2.5 + 120
@@ -358,6 +364,7 @@ def main_check(pid: str, tier: str, seed: int, replay: str | None = None) -> int
         "repo_src": repo_src(),
     }
     coverage.update(merged["extra"])
+    coverage["shard_process_time_zones"] = [os.environ["TZ"]] if "TZ" in os.environ else sorted(set(SHARD_TIME_ZONES[i % len(SHARD_TIME_ZONES)] for i in range(nshards)))
     evidence = {
         "property_id": pid,
         "tier": tier,
